@@ -42,7 +42,7 @@ def execute(case):
     reg = [a['key'] for a in obs['awaited'] if a['order']]
     out_of_order = len(order) >= 2 and order != reg
     failing = any(a['outcome'][0] != 'value' for a in case['awaits'])
-    classes = ['n=%d' % len(case['awaits']), 'outcome:' + str(kind), 'final:' + obs['views']['state']]
+    classes = ['n=%d' % len(case['awaits']), 'outcome:' + str(kind), 'final:' + obs['views']['state'], 'shape:' + (case.get('shape') or 'flat')]
     if out_of_order:
         classes.append('out-of-order')
     if any(a['kind'] == 'child' for a in case['awaits']):
